@@ -374,15 +374,14 @@ Definition where_index (cs xs ys : list Z) (cond : list Z -> Z) (i : list Z) : o
   end.
 
 (* generators.  arange (index/arange.hpp, view/arange.hpp): integer start/stop, step = p/q (q > 0):
-   count = ceil_(float(stop-start)/step); ceil_ returns 0 for a quotient that is not positive (empty range) *)
+   count = ceil_(float(diff)/step) where integer start / stop (run-time integers and integral constants, is_index_v) are subtracted as signed 64-bit values (so unsigned or mixed
+   signed / unsigned arguments of a decreasing range do not wrap, and the difference is exact before the conversion to float);
+   ceil_ returns 0 for a quotient that is not positive (empty range) *)
 Definition ceil_div (a b : Z) : Z := - ((- a) / b).
 Definition arange_len (start stop p q : Z) : outcome Z :=
   if p =? 0 then Trap
   else let num := (stop - start) * q in
        if (num * p <=? 0) then Val 0 else Val (ceil_div num p).
-(* the same count when start and stop are UNSIGNED (size_t): stop - start is taken in size_t before the conversion to float,
-   so a decreasing range (stop < start, negative step) wraps to a huge difference and a negative quotient: 0 elements *)
-Definition arange_len_unsigned (start stop p q : Z) : outcome Z := arange_len 0 (wrap 64 (stop - start)) p q.
 (* element i, as a numerator over q: start + element_type(index) * step (the index is converted to the element type before the
    product, so a negative integer step stays negative for floating element types too) *)
 Definition arange_elem (start p q i : Z) : Z := start * q + i * p.
